@@ -72,7 +72,7 @@ inline std::string describe_seq(const SeqProg &p) {
     hz::Desc d; d << pn[p.policy]; if (p.policy == P_EXTRA) d << xn[p.ops.empty() ? 0 : p.ops[0].a / 3 % X_COUNT]; d << ", " << (unsigned)p.ops.size() << " ops:";
     for (auto &o : p.ops) {
         if (o.code == 2) { d << " complete(#" << (unsigned)o.a << ")"; continue; }
-        if (p.policy != P_STACK && o.code == 3 && (o.a & 4)) d << " [movable policy with no live frame: move the storage object away and back; otherwise:]";
+        if (p.policy != P_STACK && o.code == 3 && (o.a & 4)) d << ((o.a & 16) ? " [movable policy with no live frame: another storage is move-constructed from it and destroyed, the moved-from object stays in use; otherwise:]" : " [movable policy with no live frame: move the storage object away and back; otherwise:]");
         d << " create(size class " << (unsigned)(o.a % NSC) << ")";
         if (p.policy == P_STACK && (o.a & 8)) d << "+create(size class " << (unsigned)((o.a >> 4) % NSC) << " in the same storage object)";
     }
@@ -124,7 +124,16 @@ struct SeqRun {
             if (o.code == 2) { if (!frames.empty()) complete(*frames[o.a % frames.size()]); continue; }
             if constexpr (std::is_move_constructible_v<A> && std::is_move_assignable_v<A>) {
                 // moving the storage object (documented movable) while no frame lives in it keeps its block: no new allocation later
-                if (o.code == 3 && (o.a & 4) && live() == 0) { A tmp(std::move(alloc)); alloc = std::move(tmp); continue; }
+                if (o.code == 3 && (o.a & 4) && live() == 0) {
+                    if (o.a & 16) {
+                        // another storage object is move-constructed from this one and dies with the block; the moved-from
+                        // object stays in use as an empty storage: it has to warm up again
+                        { A taken(std::move(alloc)); }
+                        for (bool &x : size_seen) x = false;
+                        continue;
+                    }
+                    A tmp(std::move(alloc)); alloc = std::move(tmp); continue;
+                }
             }
             int sc = o.a % NSC;
             if (single_use && live() > 0) { complete(*frames.back()); }      // documented single use: one live frame at a time
